@@ -82,7 +82,7 @@ def mkq(e, ch, cap, n, m, ub, extra=None, budget=240, p=None):
     if extra:
         cfg.update(extra)
     big = (cap + 3) * CSZ[ch] + 16
-    rot = (cap if e == 'insert_nc' else min(2 * n, cap) if e == 'insert_self' else min(n + m, cap)) - (p or 0) + 3     # etl::rotate: TRE turns the recursion into an outer loop; both loops are bounded by the number of rotated characters
+    rot = (cap if e == 'insert_nc' or e.startswith('repl_') else min(2 * n, cap) if e == 'insert_self' else min(n + m, cap)) - (p or 0) + 3     # etl::rotate: TRE turns the recursion into an outer loop; both loops are bounded by the number of rotated characters
     rname = 'K__ZN3etl6rotateIP%sEET_S2_S2_S2_' % MANGLE[ch]
     unwind = cap + 4
     inst = {}
